@@ -46,7 +46,7 @@ def all_units():
     # property are reported as supporting-obligation violations (check.py).
     pool_props = tuple(f"C{i:02d}" for i in range(1, 16))
     for u in units:
-        if u.name.startswith(("pool.", "helpers.star_function", "helpers.execute_optional", "group_register.", "asyncio.locks.", "asyncio.tasks.", "asyncio.futures.", "asyncio.events.", "asyncio.base_events.")):
+        if u.name.startswith(("pool.", "helpers.star_function", "helpers.execute_optional", "group_register.", "asyncio.locks.", "asyncio.tasks.", "asyncio.futures.", "asyncio.events.", "asyncio.base_events.", "contextlib.")):
             u.props = tuple(sorted(set(u.props) | set(pool_props)))
     return units
 
